@@ -76,6 +76,78 @@ def pty_leg(run, tier):
     return n
 
 
+
+def pty_resize_leg(run):
+    """more than 8 chatty commands at once on a pty that is made narrower while they run: the build is unaffected and every
+    frame painted after the resize keeps task lines and last-output lines within the new width"""
+    import fcntl, pty, select, shutil, struct, tempfile, termios, time
+    n2, out = build_n2_binary()
+    if n2 is None:
+        return 0
+    d = tempfile.mkdtemp(prefix="n2verif-c20-%d-" % os.getpid())
+    WIDE, NARROW, NSTEP = 120, 40, 12
+    try:
+        lines = ["rule gen", "  command = printf 'L%0149d\\n' 7; sleep 4; touch $out",
+                 "  description = GENERATE $out " + "from-a-rather-long-list-of-inputs-" * 5]
+        lines += ["build out%d: gen" % i for i in range(NSTEP)]
+        open(os.path.join(d, "build.ninja"), "w").write("\n".join(lines) + "\n")
+        pid, fd = pty.fork()
+        if pid == 0:
+            try:
+                os.chdir(d)
+                os.execve(n2, [n2, "-j", str(NSTEP)], ENV)
+            finally:
+                os._exit(127)
+        fcntl.ioctl(fd, termios.TIOCSWINSZ, struct.pack("HHHH", 50, WIDE, 0, 0))
+        t0, buf, marks, resized = time.time(), b"", {}, False
+        while True:
+            r, _, _ = select.select([fd], [], [], 0.1)
+            now = time.time() - t0
+            if not resized and now >= 1.0:
+                fcntl.ioctl(fd, termios.TIOCSWINSZ, struct.pack("HHHH", 50, NARROW, 0, 0))
+                resized = True
+            for name, t in (("from", 2.0), ("to", 3.5)):
+                if name not in marks and now >= t:
+                    marks[name] = len(buf)
+            if r:
+                try:
+                    chunk = os.read(fd, 65536)
+                except OSError:
+                    break
+                if not chunk:
+                    break
+                buf += chunk
+            if now > 120:
+                os.kill(pid, 9)
+                break
+        _, status = os.waitpid(pid, 0)
+        os.close(fd)
+        rc = os.waitstatus_to_exitcode(status)
+        txt = buf.decode("utf-8", "replace")
+        built = sum(1 for i in range(NSTEP) if os.path.exists(os.path.join(d, "out%d" % i)))
+        where = {"suite": "pty-resize", "rc": rc, "outputs_built": built, "tail": txt[-500:]}
+        if rc != 0 or built != NSTEP or "panicked" in txt or "ran %d tasks" % NSTEP not in txt:
+            run.report_failure(None, "%d chatty commands on a pty: the display broke the build (exit %d, %d of %d outputs, %s)" % (
+                NSTEP, rc, built, NSTEP, "panic" if "panicked" in txt else "no panic text"), where)
+            return 1
+        window = buf[marks.get("from", len(buf)):marks.get("to", len(buf))]
+        plain = re.sub(rb"\x1b\[[0-9;]*[A-Za-z]", b"", window).replace(b"\r", b"")
+        frame_lines = plain.split(b"\n")[1:-1]          # whole lines painted well after the resize and before any command finished
+        checked = 0
+        for l in frame_lines:
+            # (the summary line `[bar] n/m done, ...` has its nominal width whatever the terminal; the property cuts messages only)
+            if l.startswith(b"  L0") or l.startswith(b"GENERATE"):
+                checked += 1
+                if len(l) > NARROW:
+                    run.report_failure(None, "after the terminal was narrowed to %d columns a progress line of %d bytes was painted: %r" % (
+                        NARROW, len(l), l[:60]), dict(where, line=repr(l)))
+                    break
+        run.coverage["pty_resize_lines_checked"] = checked
+    finally:
+        shutil.rmtree(d, ignore_errors=True)
+    return 1
+
+
 def main(tier, seed, replay=None):
     run = Run(PROP, tier, seed, "proof")
     rng = random.Random(seed)
@@ -190,7 +262,7 @@ def main(tier, seed, replay=None):
         return res
 
     nvm = vm_subsample(run, "task_message", rng, sub, subm, call, parse_vm)
-    npty = pty_leg(run, tier) if not replay else 0
+    npty = (pty_leg(run, tier) + pty_resize_leg(run)) if not replay else 0
     stats["pty_runs"] = npty
     run.coverage.update(info)
     run.coverage.update({
